@@ -274,7 +274,7 @@ impl Check for C12 {
     fn run_case(&self, cx: &mut Ctx, _case: u64, rng: &mut Rng) {
         let enc = enc_for(rng);
         let n = rng.range(2, 3);
-        let mut w = World::new(rng, n, enc, Profile::contention());
+        let mut w = World::new(rng, n, enc, Profile { text_elem_ops: rng.clone().chance(40), ..Profile::contention() });
         w.verbose = cx.verbose;
         // replica 0 is the writer
         for _ in 0..rng.range(3, 15) {
